@@ -16,11 +16,13 @@ from ..gen import docs, instances
 
 ID = "C15"
 BUDGET = {"quick": 480, "thorough": 8000}
-RULE = ("(1) shared-property matrix: every unordered pair of 23 property kinds (any, string, date, date-time, uuid, integer, number, "
-        "boolean, four string enums related as base/subset/overlap/disjoint, two int enums, const, three arrays, two different "
+RULE = ("(1) shared-property matrix: every unordered pair of 26 property kinds (any, string, date, date-time, uuid, integer, number, "
+        "boolean, four string enums related as base/subset/overlap/disjoint, three string enums whose derived member names nest "
+        "while their values are disjoint, two int enums, const, three arrays, two different "
         "model refs, union, inline object) declared under one name by two allOf members; each pair is generated in both member "
         "orders (quick: whole matrix with ref/ref members; Hypothesis adds requiredness, member style ref|inline, defaults, "
-        "enum style); the result must be order-independent and equal to the reference lattice's meet, or diagnosed. "
+        "enum style, and the JSON name of the shared property: its own Python identifier or camelCase / kebab / dotted / upper-case "
+        "spellings - the whole matrix is also swept under 'unitPrice'); the result must be order-independent and equal to the reference lattice's meet, or diagnosed. "
         "(2) random compositions of 2-4 members (referenced and inline, chains, parents declared after children, a child "
         "requiring an inherited optional property, own properties written next to allOf): attribute set = union of member "
         "properties, mandatory iff any member requires it, schema-valid instances round-trip. An evaluation = one generation "
@@ -47,6 +49,9 @@ KINDS = {
     "enum_ab": {"type": "string", "enum": ["a", "b"]}, "enum_a": {"type": "string", "enum": ["a"]},
     "enum_bc": {"type": "string", "enum": ["b", "c"]}, "enum_cd": {"type": "string", "enum": ["c", "d"]},
     "ienum_12": {"type": "integer", "enum": [1, 2]}, "ienum_1": {"type": "integer", "enum": [1]},
+    # enums whose derived *member names* nest (A in {A, B}; VALUE_0, VALUE_1 in VALUE_0..2) while their values are disjoint
+    "enum_upA": {"type": "string", "enum": ["A"]}, "enum_pos3": {"type": "string", "enum": ["1080p", "720p", "480p"]},
+    "enum_pos2": {"type": "string", "enum": ["4k", "8k"]},
     "const_x": {"const": "x"}, "arr_str": {"type": "array", "items": {"type": "string"}},
     "arr_int": {"type": "array", "items": {"type": "integer"}}, "arr_num": {"type": "array", "items": {"type": "number"}},
     "model1": {"$ref": "#/components/schemas/Leaf1"}, "model2": {"$ref": "#/components/schemas/Leaf2"},
@@ -56,7 +61,8 @@ KINDS = {
 }
 SEM = {"any": "any", "str": "str", "date": "date", "datetime": "datetime", "uuid": "uuid", "int": "int", "num": "float", "bool": "bool",
        "enum_ab": ("enum", ("a", "b")), "enum_a": ("enum", ("a",)), "enum_bc": ("enum", ("b", "c")), "enum_cd": ("enum", ("c", "d")),
-       "ienum_12": ("enum", (1, 2)), "ienum_1": ("enum", (1,)), "const_x": ("lit", ("x",)), "arr_str": ("list", "str"),
+       "ienum_12": ("enum", (1, 2)), "ienum_1": ("enum", (1,)), "enum_upA": ("enum", ("A",)),
+       "enum_pos3": ("enum", ("1080p", "720p", "480p")), "enum_pos2": ("enum", ("4k", "8k")), "const_x": ("lit", ("x",)), "arr_str": ("list", "str"),
        "arr_int": ("list", "int"), "arr_num": ("list", "float"), "model1": ("model", "Leaf1"), "model2": ("model", "Leaf2"),
        "union_is": ("union", ("int", "str")), "obj_inline": ("model", "<inline>"), "arr_model1": ("list", ("model", "Leaf1"))}
 
@@ -74,7 +80,8 @@ def meet(a: str, b: str):
         return "int"
     if pair in ({"str", "date"}, {"str", "datetime"}, {"str", "uuid"}):
         return (pair - {"str"}).pop()
-    for e, base in (("enum_ab", "str"), ("enum_a", "str"), ("enum_bc", "str"), ("enum_cd", "str"), ("ienum_12", "int"), ("ienum_1", "int")):
+    for e, base in (("enum_ab", "str"), ("enum_a", "str"), ("enum_bc", "str"), ("enum_cd", "str"), ("ienum_12", "int"), ("ienum_1", "int"),
+                    ("enum_upA", "str"), ("enum_pos3", "str"), ("enum_pos2", "str")):
         if pair == {e, base}:
             return e
     if pair == {"enum_ab", "enum_a"}:
@@ -105,6 +112,10 @@ def sweep(tier):
                 out.append({"kind": "pair", "a": a, "b": b, "req": req, "style": style, "literal": False, "defaults": False})
         out.append({"kind": "pair", "a": a, "b": b, "req": [True, False], "style": "inline_inline", "literal": False,
                     "defaults": False, "req_split": True})
+    # every pair once more under a JSON name that is not its own Python identifier
+    for a, b in pairs():
+        out.append({"kind": "pair", "a": a, "b": b, "req": [True, False], "style": "ref_inline", "literal": False, "defaults": False,
+                    "name": "unitPrice"})
     return out
 
 
@@ -113,7 +124,8 @@ def pair_case(draw):
     a, b = draw(st.sampled_from(pairs()))
     return {"kind": "pair", "a": a, "b": b, "req": [draw(st.booleans()), draw(st.booleans())],
             "style": draw(st.sampled_from(["ref_ref", "ref_inline", "inline_ref", "inline_inline"])),
-            "literal": draw(st.booleans()), "defaults": draw(st.integers(0, 3)) == 0, "req_split": draw(st.integers(0, 3)) == 0}
+            "literal": draw(st.booleans()), "defaults": draw(st.integers(0, 3)) == 0, "req_split": draw(st.integers(0, 3)) == 0,
+            "name": draw(st.sampled_from(sorted(PROP_NAMES)))}
 
 
 @st.composite
@@ -200,7 +212,7 @@ def expected_sem(kind: str, literal: bool):
 
 def sem_equal(a, b) -> bool:
     def canon(x):
-        if isinstance(x, tuple) and x and x[0] == "model" and (x[1] == "<inline>" or x[1].startswith("P1Sp") or x[1].startswith("P2Sp") or x[1].startswith("Child")):
+        if isinstance(x, tuple) and x and x[0] == "model" and (x[1] == "<inline>" or x[1].startswith(("P1", "P2", "Child"))):
             return ("model", "<inline>")
         if isinstance(x, tuple):
             return tuple(canon(y) for y in x)
@@ -210,12 +222,18 @@ def sem_equal(a, b) -> bool:
 
 SAMPLES = {"any": 5, "str": "s", "date": "2020-01-02", "datetime": "2020-01-02T03:04:05", "uuid": "12345678-1234-5678-1234-567812345678",
            "int": 3, "num": 1.5, "bool": True, "enum_ab": "a", "enum_a": "a", "enum_bc": "b", "enum_cd": "c", "ienum_12": 1, "ienum_1": 1,
-           "const_x": "x", "arr_str": ["x"], "arr_int": [1], "arr_num": [1.5], "model1": {"l1": "x"}, "model2": {"l2": 2},
+           "enum_upA": "A", "enum_pos3": "720p", "enum_pos2": "8k", "const_x": "x", "arr_str": ["x"], "arr_int": [1], "arr_num": [1.5], "model1": {"l1": "x"}, "model2": {"l2": 2},
            "union_is": 3, "obj_inline": {"q": "z"}, "arr_model1": [{"l1": "x"}]}
+
+
+# JSON name of the shared property -> the attribute it becomes (names that are not their own Python identifier matter: the
+# generator keys its bookkeeping by JSON name in one place and by Python name in another)
+PROP_NAMES = {"sp": "sp", "unitPrice": "unit_price", "unit-price": "unit_price", "Unit.Price": "unit_price", "SP": "sp", "X-Sp": "x_sp"}
 
 
 def _pair_doc(case, order):
     a, b = case["a"], case["b"]
+    nm = case.get("name", "sp")
     sa, sb = copy.deepcopy(KINDS[a]), copy.deepcopy(KINDS[b])
     ra, rb = case["req"]
     if case.get("defaults"):
@@ -223,8 +241,8 @@ def _pair_doc(case, order):
             if k in ("str", "int", "num", "bool", "enum_ab", "enum_a", "ienum_12", "ienum_1", "date") and "$ref" not in s:
                 s["default"] = SAMPLES[k]
     split = bool(case.get("req_split")) and case.get("style") == "inline_inline"
-    P1 = {"type": "object", "properties": {"sp": sa, "only1": {"type": "string"}}, **({"required": ["sp"]} if ra and not split else {})}
-    P2 = {"type": "object", "properties": {"sp": sb, "only2": {"type": "integer"}}, **({"required": ["sp"]} if rb and not split else {})}
+    P1 = {"type": "object", "properties": {nm: sa, "only1": {"type": "string"}}, **({"required": [nm]} if ra and not split else {})}
+    P2 = {"type": "object", "properties": {nm: sb, "only2": {"type": "integer"}}, **({"required": [nm]} if rb and not split else {})}
     style = case.get("style", "ref_ref")
     m1 = {"$ref": "#/components/schemas/P1"} if style.startswith("ref") else P1
     m2 = {"$ref": "#/components/schemas/P2"} if style.endswith("ref") else P2
@@ -233,7 +251,7 @@ def _pair_doc(case, order):
                "Leaf2": {"type": "object", "properties": {"l2": {"type": "integer"}}},
                "P1": P1, "P2": P2,
                "Child": {"allOf": members + [{"type": "object", "properties": {"own": {"type": "boolean"}}}]
-                         + ([{"required": ["sp"]}] if split and (ra or rb) else [])}}
+                         + ([{"required": [nm]}] if split and (ra or rb) else [])}}
     return {"openapi": "3.0.3", "info": {"title": "t", "version": "1"}, "paths": {}, "components": {"schemas": schemas}}
 
 
@@ -261,23 +279,25 @@ def _observe_pair(case, order, ctx):
 
             Unset = pkg.types.Unset
             ftypes = {f.name: f.type for f in attrs.fields(Child)}
-            if "sp" not in ftypes:
+            nm = case.get("name", "sp")
+            py = PROP_NAMES[nm]
+            if py not in ftypes:
                 return ("attr_missing", sorted(ftypes))
-            sem = norm_ann(ftypes["sp"], models, Unset)
+            sem = norm_ann(ftypes[py], models, Unset)
             sig = inspect.signature(Child)
-            required = sig.parameters["sp"].default is inspect.Parameter.empty
+            required = sig.parameters[py].default is inspect.Parameter.empty
             parents = {}
             for pn in ("P1", "P2"):
                 P = getattr(models, pn, None)
                 if P is not None:
                     pt = {f.name: f.type for f in attrs.fields(P)}
-                    parents[pn] = norm_ann(pt.get("sp"), models, Unset)
+                    parents[pn] = norm_ann(pt.get(py), models, Unset)
             names = sorted(ftypes)
             # behaviour: a sample valid for both members round-trips
             rt = None
             m = meet(case["a"], case["b"])
             if m is not None:
-                inst = {"sp": SAMPLES[m], "only1": "o", "only2": 2, "own": True}
+                inst = {nm: SAMPLES[m], "only1": "o", "only2": 2, "own": True}
                 stage, r = behave._attempt(Child, inst)
                 if stage is not None:
                     rt = ("raises", stage, type(r).__name__)
@@ -314,7 +334,9 @@ def _run_pair(case, ctx):
     o1 = _observe_pair(case, 1, ctx) if a != b or True else o0
     m = meet(a, b)
     site = {"a": a, "b": b, "meet": m or "none", "style": case.get("style", "ref_ref")}
-    ctx.nontrivial([a, b, case["req"], case.get("style"), literal, case.get("defaults")])
+    ctx.nontrivial([a, b, case["req"], case.get("style"), literal, case.get("defaults"), case.get("name", "sp")])
+    if case.get("name", "sp") != "sp":
+        ctx.label("shared_name_not_an_identifier")
     ctx.sample = case
     ctx.label("pair:meet" if m else "pair:no_meet")
     for o in (o0, o1):
@@ -352,7 +374,7 @@ def _run_pair(case, ctx):
             ctx.violation("required.if_any_member_requires", {**site, "req": case["req"]}, f"mandatory={r}, members require {case['req']}")
             break
     for n in (n0, n1):
-        if not {"sp", "only1", "only2", "own"} <= set(n):
+        if not {PROP_NAMES[case.get("name", "sp")], "only1", "only2", "own"} <= set(n):
             ctx.violation("composed.all_properties", site, f"{n!r}")
             break
     for rt in (rt0, rt1):
